@@ -29,7 +29,7 @@ use actix_service::{fn_factory, Service, ServiceFactory};
 use actix_web::{
     dev::{ServiceRequest, ServiceResponse},
     http::{Method, Version},
-    web, App, HttpRequest, HttpResponse,
+    guard, web, App, HttpRequest, HttpResponse,
 };
 use serde::{Deserialize, Serialize};
 use vh::h1conn::ScriptIo;
@@ -345,6 +345,15 @@ macro_rules! build_app {
                     .service(web::resource("/x/{tail:.*}").to(dump_handler))
                     .service(web::resource("/static").name("s2static").to(dump_handler)),
             )
+            // two resources with the SAME pattern, told apart only by a guard (the by-path look-up
+            // of the resource map finds the first one; only the resource-id path names the second);
+            // no default service of its own: a miss inside the scope goes to the app default.
+            // Root child 2: a stale id [0] of scope /s1 in front of [2, 0] addresses /s1/{sid}/deep/{a}/{b}
+            .service(
+                web::scope("/s3")
+                    .service(web::resource("/g/{id}").name("g_get").guard(guard::Get()).to(dump_handler))
+                    .service(web::resource("/g/{id}").name("g_post").guard(guard::Post()).to(dump_handler)),
+            )
             .service(web::resource("/top/{id}").app_data(ResOnly(22)).to(dump_handler))
             .service(web::resource("/").to(dump_handler))
             .default_service(web::to(dump_handler))
@@ -404,6 +413,7 @@ use Piece::*;
 const L_S1: Level = Level { pieces: &[S("/s1/"), P("sid")], rid: 10, leaf: false, data: &[(0, 1), (1, 11)], mw: Some((4, 41)) };
 const L_DEEP: Level = Level { pieces: &[S("/deep")], rid: 13, leaf: false, data: &[(0, 3)], mw: None };
 const L_S2: Level = Level { pieces: &[S("/s2")], rid: 20, leaf: false, data: &[], mw: None };
+const L_S3: Level = Level { pieces: &[S("/s3")], rid: 30, leaf: false, data: &[], mw: None };
 const ROUTES: &[RouteT] = &[
     // 0: index
     RouteT { levels: &[Level { pieces: &[S("/")], rid: 1, leaf: true, data: &[], mw: None }], rest: "", nparams: 0, pattern: Some("/"), name: None },
@@ -427,7 +437,26 @@ const ROUTES: &[RouteT] = &[
     RouteT { levels: &[], rest: "/nomatch/q", nparams: 0, pattern: None, name: None },
     // 10: /s2/<unmatched> -> /s2 has no default service of its own: the app default service
     RouteT { levels: &[L_S2], rest: "/other", nparams: 0, pattern: None, name: None },
+    // 11: GET /s3/g/{id} -> first of two guard-distinguished siblings
+    RouteT { levels: &[L_S3, Level { pieces: &[S("/g/"), P("id")], rid: 31, leaf: true, data: &[], mw: None }], rest: "", nparams: 1, pattern: Some("/s3/g/{id}"), name: Some("g_get") },
+    // 12: POST /s3/g/{id} -> second sibling (same pattern, other guard)
+    RouteT { levels: &[L_S3, Level { pieces: &[S("/g/"), P("id")], rid: 32, leaf: true, data: &[], mw: None }], rest: "", nparams: 1, pattern: Some("/s3/g/{id}"), name: Some("g_post") },
+    // 13: /s3/<unmatched> -> 404 inside the scope (app default service), resource path = [scope]
+    RouteT { levels: &[L_S3], rest: "/zzz", nparams: 0, pattern: None, name: None },
 ];
+
+/// routes whose resource is selected by a method guard
+fn forced_method(route: usize) -> Option<&'static str> {
+    match route {
+        11 => Some("GET"),
+        12 => Some("POST"),
+        _ => None,
+    }
+}
+/// the request ends in a default service below at least one scope ("404 inside a scope")
+fn is_scope_miss(route: usize) -> bool {
+    !ROUTES[route].levels.is_empty() && ROUTES[route].pattern.is_none()
+}
 
 /// (rids, pattern, name) rows of the model's resource-map table
 fn rmap_rows() -> Vec<(Vec<u32>, String, Option<String>)> {
@@ -972,7 +1001,11 @@ const HDRS: &[(&str, &[&str])] = &[
 ];
 
 fn gen_req(rng: &mut Rng, conn_ok: bool, httptest_ok: bool) -> ReqSpec {
-    let route = if rng.chance(1, 4) { *rng.pick(&[5usize, 6, 9, 9, 9, 10]) } else { *rng.pick(&[0usize, 1, 2, 2, 3, 4, 4, 7, 8]) };
+    let route = if rng.chance(1, 4) { *rng.pick(&[5usize, 6, 9, 9, 9, 10, 13]) } else { *rng.pick(&[0usize, 1, 2, 2, 3, 4, 4, 7, 8, 11, 12, 12]) };
+    gen_req_on(rng, route, conn_ok, httptest_ok)
+}
+
+fn gen_req_on(rng: &mut Rng, route: usize, conn_ok: bool, httptest_ok: bool) -> ReqSpec {
     let rt = &ROUTES[route];
     let mut params = vec![];
     for lv in rt.levels {
@@ -998,7 +1031,10 @@ fn gen_req(rng: &mut Rng, conn_ok: bool, httptest_ok: bool) -> ReqSpec {
             headers.push((k.to_string(), rng.pick(vs).to_string()));
         }
     }
-    let version = if via == "conn" { *rng.pick(&[11u8, 11, 10]) } else { *rng.pick(&[11u8, 11, 11, 10, 20]) };
+    let mut version = if via == "conn" { *rng.pick(&[11u8, 11, 10]) } else { *rng.pick(&[11u8, 11, 11, 10, 20]) };
+    if via == "conn" && forced_method(route) == Some("POST") {
+        version = 11; // an HTTP/1.0 POST without Content-Length never reaches the service
+    }
     if via == "conn" {
         // keep the connection reusable: HTTP/1.0 needs an explicit keep-alive
         headers.retain(|(k, _)| k != "connection");
@@ -1020,6 +1056,9 @@ fn gen_req(rng: &mut Rng, conn_ok: bool, httptest_ok: bool) -> ReqSpec {
     if via == "conn" && version == 10 && method == "POST" {
         // the h1 decoder rejects an HTTP/1.0 POST without Content-Length (400, no request)
         method = "GET".into();
+    }
+    if let Some(m) = forced_method(route) {
+        method = m.into();
     }
     ReqSpec {
         conn: rng.below(3) as u32,
@@ -1068,6 +1107,25 @@ fn gen_history(rng: &mut Rng, target: usize, big_bursts: bool) -> Vec<Step> {
             }
             6..=11 => steps.push(Step::ClearStash),
             12..=16 => steps.push(Step::ReleaseHeld),
+            17..=28 => {
+                // two consecutive requests on one recycled object whose leftovers would be visible:
+                // (a) guard-distinguished siblings, (b) a miss inside a scope, then a resource of a
+                // sibling scope / of the root, (c) a path that the quoter decodes, then one it leaves alone
+                let (a, b): (usize, usize) = *rng.pick(&[
+                    (12, 12), (11, 12), (12, 11), (2, 12), (4, 12),
+                    (6, 11), (6, 12), (5, 11), (5, 12), (13, 3), (13, 1), (6, 1), (6, 8), (10, 2), (13, 4),
+                    (1, 8), (1, 0), (2, 9), (7, 11),
+                ]);
+                let mut ra = gen_req_on(rng, a, conn_ok, httptest_ok);
+                let rb = gen_req_on(rng, b, conn_ok, httptest_ok);
+                if matches!((a, b), (1, 8) | (1, 0) | (2, 9) | (7, 11)) {
+                    let last = ra.params.len() - 1;
+                    ra.params[last] = rng.pick(&["my%20report", "%41b", "caf%C3%A9"]).to_string();
+                }
+                steps.push(Step::Req(ra));
+                steps.push(Step::Req(rb));
+                nreq += 2;
+            }
             _ => {
                 let mut r = gen_req(rng, conn_ok, httptest_ok);
                 match rng.below(10) {
@@ -1105,6 +1163,10 @@ fn normalize(steps: Vec<Step>) -> Vec<Step> {
                 r.ctype = 0;
                 Step::Req(r)
             }
+            Step::Req(mut r) if forced_method(r.route).is_some() => {
+                r.method = forced_method(r.route).unwrap().into();
+                Step::Req(r)
+            }
             other => other,
         })
         .collect()
@@ -1126,8 +1188,25 @@ fn make_case(id: String, steps: Vec<Step>) -> (CaseOut, bool) {
         }
     )];
     let mut has_httptest = false;
+    let mut prev: Option<&ReqSpec> = None;
     for s in &steps {
         if let Step::Req(r) = s {
+            if let Some(p) = prev {
+                // leftovers of p would be visible in r if the object of p is recycled for r
+                if !p.stash && !p.hold && !is_denied(p) && !is_denied(r) {
+                    if !ROUTES[p.route].levels.is_empty() && r.route == 12 {
+                        tags.push("family:guard-distinguished-sibling-after-routed-request".into());
+                    }
+                    if is_scope_miss(p.route) && ROUTES[r.route].pattern.is_some() {
+                        tags.push("family:miss-inside-scope-then-other-resource".into());
+                    }
+                    let decoded = |x: &ReqSpec| x.params.iter().any(|v| v.contains('%') && !v.contains("%2F"));
+                    if decoded(p) && !decoded(r) {
+                        tags.push("family:decoded-path-then-plain-path".into());
+                    }
+                }
+            }
+            prev = Some(r);
             tags.push(format!("via:{}", r.via));
             tags.push(format!("route:{}", r.route));
             if tenant_of(r).is_some() {
@@ -1154,6 +1233,8 @@ fn make_case(id: String, steps: Vec<Step>) -> (CaseOut, bool) {
             if r.via == "httptest" {
                 has_httptest = true;
             }
+        } else {
+            prev = None;
         }
     }
     // the former known class http-test-request-head is repaired (319fa1c, F30): no known class
